@@ -29,7 +29,7 @@ func init() {
 	}
 	Registry["C15"] = &Check{
 		Scenarios: c15Scenarios,
-		Rule: "Server.Serve with three connections plus a fourth offered after the fault; accept script: every placement of <=2 temporary accept errors among the offers; connection A suffers one fault from {handler panic, undecodable header with trailing bytes, disconnect in the middle of a message} at every position 1..3 of its three-message sequence; connections B, C and D exchange two request/answer pairs each with bodies that name their connection (the handler checks that the body belongs to the header); C and D are offered only after A's fault, and C's first message is held inside its body until D has been served completely (so a read buffer shared across connections is overwritten); every ordering of environment steps, timers and blocking hand-overs at preemption bound 0 (quick: each accept placement with three of the nine fault/position pairs; thorough: the full product, and preemption bound 1 for the placement without accept errors); back-off sleeps run on the virtual clock. Three further scenarios (preemption bound 1, thorough 2) put the fault at the third message of a connection whose first handler has requested CloseNotify, so that the notifier goroutine is running when the connection fails.",
+		Rule: "Server.Serve with three connections plus a fourth offered after the fault; accept script: every placement of <=2 temporary accept errors among the offers; connection A suffers one fault from {handler panic, undecodable header with trailing bytes, disconnect in the middle of a message} at every position 1..3 of its three-message sequence; connections B, C and D exchange two request/answer pairs each with bodies that name their connection (the handler checks that the body belongs to the header); after A's fault the application registers a further handler on the running ServeMux; C and D are offered only after that, and C's first message is held inside its body until D has been served completely (so a read buffer shared across connections is overwritten); every ordering of environment steps, timers and blocking hand-overs at preemption bound 0 (quick: each accept placement with three of the nine fault/position pairs; thorough: the full product, and preemption bound 1 for the placement without accept errors); back-off sleeps run on the virtual clock. Three further scenarios (preemption bound 1, thorough 2) put the fault at the third message of a connection whose first handler has requested CloseNotify, so that the notifier goroutine is running when the connection fails.",
 		Assume: []string{"data-race freedom between visible operations (audited separately with -race)"},
 		QuickBudget: 150, ThoroughBudget: 2400,
 	}
@@ -44,6 +44,7 @@ type srvState struct {
 	release *vs.Chan[struct{}]
 	mux     *diam.ServeMux
 	corrupt []string
+	registered bool
 }
 
 var srvSt *srvState
@@ -120,6 +121,7 @@ type srvOpts struct {
 	reports   bool           // start the error-report observer
 	defaultMux bool          // Server.Handler is nil: the package-level DefaultServeMux dispatches
 	notifyOn  string         // connection whose first handler requests CloseNotify (starts the pipe copier)
+	registerLate bool        // a handler is registered at run time after the fault, before the late connection is offered
 	held      string         // late connection whose first message is cut inside its body; the rest follows only after heldAfter was fully answered
 	heldAfter string
 }
@@ -136,7 +138,8 @@ func srvBody(o srvOpts) func() {
 			mux = diam.DefaultServeMux
 		}
 		st.mux = mux
-		mux.HandleFunc("ALL", func(c diam.Conn, m *diam.Message) {
+		var handler diam.HandlerFunc
+		handler = func(c diam.Conn, m *diam.Message) {
 			id := fmt.Sprintf("%d.%d", m.Header.HopByHopID, m.Header.EndToEndID)
 			st.events = append(st.events, "enter "+id)
 			vs.Event("handler enter %s", id)
@@ -160,7 +163,8 @@ func srvBody(o srvOpts) func() {
 			a.WriteTo(c)
 			st.events = append(st.events, "exit "+id)
 			vs.Event("handler exit %s", id)
-		})
+		}
+		mux.HandleFunc("ALL", handler)
 		srv := &diam.Server{Handler: mux, Dict: dict.Default}
 		if o.defaultMux {
 			srv = &diam.Server{} // nil handler and nil dictionary: the package defaults
@@ -209,6 +213,13 @@ func srvBody(o srvOpts) func() {
 			vs.GoNamed("peer"+o.late, true, func() {
 				after := st.conns[o.lateAfter]
 				vs.BlockObj("wait-fault", after, func() bool { return after.Closed })
+				if o.registerLate {
+					// the application registers a handler while the server runs (the same function, under
+					// the name of one of the commands in use, so dispatch results do not change)
+					vs.Event("application registers a handler at run time")
+					mux.HandleFunc("DWR", handler)
+					st.registered = true
+				}
 				lis.Offer(vnet.AcceptItem{Conn: st.conns[o.late]})
 			})
 		}
@@ -377,7 +388,7 @@ func c15Scenarios(tier string) []*Scenario {
 				}
 				pl, fault, pos := pl, fault, pos
 				o := srvOpts{names: []string{"A", "B", "C", "D"}, nmsg: 2, pattern: map[string]string{"B": "one", "C": "each", "D": "one"},
-					tempBefore: pl, late: "D", lateAfter: "A", panicAt: map[string]int{}, reports: true, held: "C", heldAfter: "D"}
+					tempBefore: pl, late: "D", lateAfter: "A", panicAt: map[string]int{}, reports: true, held: "C", heldAfter: "D", registerLate: true}
 				if fault == "panic" {
 					o.panicAt["A"] = pos
 				}
@@ -432,7 +443,10 @@ func c15Scenarios(tier string) []*Scenario {
 					if st.served {
 						v = append(v, "Serve returned")
 					}
-					if st.lis.NAccepted != 4 {
+					if !st.registered {
+					v = append(v, "the application's run-time handler registration (ServeMux.HandleFunc after the fault) never returned")
+				}
+				if st.lis.NAccepted != 4 {
 						v = append(v, fmt.Sprintf("%d of 4 connections accepted", st.lis.NAccepted))
 					}
 					for _, p := range s.Panics() {
